@@ -39,7 +39,7 @@ CHECKS = {
             TREE + "every kept history is driven through add_block and add_block_no_validation; at every stored block the "
             "unspent set and per-key balances (value and exact reference list) are compared with a replay of that block's own "
             "ancestors; a second arrival order of the same set must give the same per-block views; every intermediate snapshot "
-            "is re-fingerprinted after later adds. Four build modes: validated / unvalidated entry point, without and with balance "
+            "is re-fingerprinted after later adds. Five build modes (the fifth: a wallet builds spends on the state between arrivals): validated / unvalidated entry point, without and with balance "
             "look-ups (at the head / at every block) between arrivals, so that on-demand caches are hot when the next block "
             "arrives; a second payload menu pays never-seen keys twice in one transaction / reward; a third has a zero-value reward "
             "output to a key that then spends all its positive outputs, and a transaction whose inputs alternate between owners.",
@@ -48,7 +48,10 @@ CHECKS = {
     'C04': (MC, "exhaustive enumeration of all n! parent-choice sequences; reference fork choice in lock-step",
             "All sequences in which each new block picks any earlier block as parent (n = 8 quick, 10 thorough; no "
             "de-duplication), through add_block and add_block_no_validation; after every arrival head, tip set, by-height "
-            "index of every stored block and forks() equal the reference (first-seen block of greatest height).",
+            "index of every stored block and forks() equal the reference (first-seen block of greatest height); the same on a "
+            "universe whose competing branches carry different targets and time stamps far apart; one 130 (400)-block chain with a "
+            "stale tip / branch left behind at height 1, 2 or 5; all 120 sequences of 5 blocks delivered by a peer to a real "
+            "node, as relays and as answers to a request.",
             "Total work is height in this version; sibling ids fall on both sides of the incumbent's (counted in evidence) so a "
             "tie-break by id cannot hide.", "DESIGN.md section 4, C04"),
     'C05': (MC, "explicit-state search over trees crossing retarget boundaries; single-rule-broken header candidates on every "
@@ -56,7 +59,9 @@ CHECKS = {
             TREE + "retarget period rebound to 4 so boundaries fall on both sides of forks; ~40 header candidates per parent "
             "(PoW, wrong/stale/off-by-one targets, heights, reward height, time rules at the exact thresholds, every evidence "
             "field, evidence of other parent/nonce/tx list), each re-mined so only the intended rule is broken; the node's own "
-            "construct_block_for_mining output must be accepted at 5 clock offsets in every state; 9,192-case grid of "
+            "construct_block_for_mining output must be accepted at 5 clock offsets in every state, and so must what the real "
+            "MinerWatcher assembles (one and two miner ids, clock advancing between requests); every candidate is also relayed to a "
+            "real node with the message header's time stamp forged to the block's own; 9,192-case grid of "
             "calculate_new_target with the real constants; 48 two-branch histories whose fork lies before a boundary and whose "
             "branches both reach the next one (state-dependent candidate: target derived from the head's chain); thorough adds "
             "a 10,080-block chain forked across the real boundary.",
@@ -91,7 +96,7 @@ CHECKS = {
             "at every block and head height equal to the pre-restart ones; plus a 201-block chain carrying reward data of every "
             "length 0..200 under three batchings; batchings with <= 2 flushes also with the first batch handed over, discarded "
             "as after a rejected download, and handed over again; reward shapes without outputs / with a zero-value output / with two "
-            "outputs. Threads: 4 plans of 2-3 threads doing save_block / flush_blocks through the "
+            "outputs; a 1,300-block chain with a stale sibling at every height (2,601 rows). Threads: 4 plans of 2-3 threads doing save_block / flush_blocks through the "
             "real DiskInterface on one file store, every schedule with <= 2 (3) preemptions (3-thread plan one less) at "
             "source-line granularity of blockstore.py: every block whose saving thread's flush returned is read back "
             "byte-identical from the re-opened store, no exception, no deadlock. One recorded defect (shared transaction across "
@@ -109,7 +114,9 @@ CHECKS = {
             "to the store (read through a second connection) and relayed exactly once iff new head; otherwise chain state, "
             "store rows, write buffer and pool unchanged and nothing relayed; each sequence is closed by a fresh valid block "
             "that must get stored. The deliverer greets with a header time stamp one hour ahead. Start states with 1-2 bulk-download "
-            "blocks pending, then a rejected relay (5 kinds), then two valid relays that must get stored. Threads: the networking "
+            "blocks pending, then a rejected relay (5 kinds), then two valid relays that must get stored; a 'ten minutes pass' event and, "
+            "after every sequence, a closing rejected delivery ten minutes later that must leave no trace (every module's wall "
+            "clock is the virtual one). Threads: the networking "
             "thread (iterations of LocalPeer.run's loop body over the fake selector) handles a valid sibling block / a block "
             "failing full validation / a transaction while the miner thread runs the real found-block handler, every schedule "
             "with <= 1 (2) preemptions at source-line granularity of mining, manager, blockstore, disk_interface, local_peer "
@@ -130,7 +137,8 @@ CHECKS = {
             "unchanged for 3 rounds; 60-round horizon; > 3000 deliveries without a timer step = livelock) and then continued with "
             "an injected fresh block and a broadcast transaction. Oracle: every head at the greatest initial height (+1 after the "
             "block), complete chains, transaction in every pool, no exception escaped, no connection between nodes dropped, "
-            "every node relays each block / transaction at most once. Threads: a transaction broadcast from the main thread (as skepticoin-send does) while the networking thread handles a block / transaction delivery, every schedule with <= 1 (2) preemptions at source-line granularity: every peer receives it exactly once and the call does not raise.",
+            "every node relays each block / transaction at most once; on the default schedule of every configuration the transaction is "
+            "then confirmed, a longer branch without it takes over and another spend of the same output must reach every pool. Threads: a transaction broadcast from the main thread (as skepticoin-send does) while the networking thread handles a block / transaction delivery, every schedule with <= 1 (2) preemptions at source-line granularity: every peer receives it exactly once and the call does not raise.",
             "Liveness is decided as 'the fair completion reaches a fixed point within the horizon'. Reliable links; frame "
             "granularity (C11 covers fragmentation).", "DESIGN.md section 4, C10"),
     'C11': (MC, "exhaustive enumeration of all 2-way and 3-way cuts of framed and corrupted streams against a reference framer",
@@ -140,7 +148,7 @@ CHECKS = {
             "ConnectedRemotePeer.handle_receive_data; the dispatched sequence and the read that raises the refusal must equal "
             "the reference framer's under every cut. Frames of 5 KB / 71 KB (thorough 1.1 MB) alone, first and last in a stream under "
             "1024 / 4096 / 65536-byte reads and every single cut next to a frame boundary, a power of two or the end; two multi-read "
-            "frames back to back under every alignment of 1024-byte reads.",
+            "frames back to back under every alignment of 1024-byte reads; bursts of 16 / 17 / 40 / 300 minimum-size frames.",
             "Payload validity inside a frame is decided by the real message decoders (fragmentation independence, not the "
             "decoders, is under test here).", "DESIGN.md section 4, C11"),
     'C12': (MC, "exhaustive enumeration of ledger states x pool subsets x clock offsets x intervening event, driving the real "
@@ -148,7 +156,7 @@ CHECKS = {
                 "found-block handler (miner thread) against the networking thread",
             "For every ledger state of a block-tree search (depth 2 / 3, forks, head on either branch), every compatible pool "
             "subset of size <= 3 (fees 0, 3, 1000, 10^8; 1- and 2-input), clock - head time in {-30,-29,-1,0,1,120} and "
-            "{nothing, the clock advances by 7 s, the socket to the first peer is dead, competing block with a time inside (clock, clock+30] arrives, pool gains a "
+            "{nothing, the clock advances by 7 s, the socket to the first peer is dead, a bulk-download block containing the pending transactions arrives, competing block with a time inside (clock, clock+30] arrives, pool gains a "
             "transaction} injected after "
             "work request 0 or 1 or after result 0 (root target 2^255, so runs contain losing nonces; retarget period seam 4, so "
             "candidates at heights 4 and 8 are retarget-boundary blocks; the miner process works on a copy of the request made at "
@@ -169,7 +177,7 @@ CHECKS = {
             "overlapping 2-input, already mined, other-fork output, 11 malformed kinds (boundary amounts at every output position), bad signature, overspend, resubmission) "
             "through the network handler and through add_transaction_to_pool; head changes (extension including / conflicting "
             "with / ignoring pooled transactions, side forks, reorganisations) through relayed blocks, through blocks answering a "
-            "request (bulk path) and through set_coinstate. "
+            "request (bulk path), through set_coinstate and through a rejected relay (fall-back to the last validated state). "
             "After every operation: every pooled transaction reference-valid at the head, pairwise disjoint references, "
             "nothing inadmissible admitted, after a head change exactly the still-valid ones remain. Threads: 6 plans of 2-3 "
             "threads (add_transaction_to_pool, a head change that spends / ignores the inputs, a get_state observer) under every "
@@ -187,13 +195,14 @@ CHECKS = {
             "must pass the node's and the reference validation, pay exactly, give exactly the change, use only unused wallet "
             "outputs; a failure must leave the record unchanged and happen only when unused outputs do not suffice. 24 (40) worlds are "
             "explored to 5 (6) operations with a reduced amount alphabet, confirmation of ANY pending spend as its own operation and "
-            "one reorganisation onto a branch without the confirmed spends, one wallet object carried along each path, confirmations "
+            "one reorganisation onto a branch without the confirmed spends, one wallet object carried along each path, wallets whose keys carry the annotation 'change', confirmations "
             "whose reward refunds the spending keys; wallets holding 1,100 (2,100) outputs, 13 attempts each "
             "(few, 255/256, all but one, all).",
             "Greedy selection order is whatever the wallet does; only the stated outcome is checked.", "DESIGN.md section 4, C14"),
     'C15': (MC, "explicit-state search over wallet operation sequences with a reference wallet in lock-step; crash-point "
                 "enumeration of every save (snapshot at every raw write / close / rename)",
-            "BFS to depth 8 (10) over hand-out (two annotations), restore, save, load, dump+load on a 3-key wallet, "
+            "BFS to depth 7 (9) over hand-out (three annotations), restore, restore-oldest, save, load, dump+load, key generation on a "
+            "3-key wallet, "
             "de-duplicated on (wallet content, file text, last key): a key is never handed out twice while unused keys remain "
             "(also across save/load), load reproduces what was saved, dump+load is the identity; get_balance equals the reference "
             "total in every reachable unused/annotated partition on three ledger states; for every save executed, and for a "
@@ -220,7 +229,8 @@ CHECKS = {
             "pass full validation with the real scrypt (horizon lowered), also when a competing block at height 1 arrived first "
             "and right after refused look-alikes (altered evidence; re-mined copies claiming a wrong height whose evidence "
             "reconstruction fails half-way), and when the recorded chain is loaded again into fresh objects after the earlier ones "
-            "were dropped (and when the recorded blocks are decoded from streams carrying more bytes after each block), with id() replaced by a harness-owned one that hands dead objects' ids to new objects adversarially; "
+            "were dropped (when the recorded blocks are decoded from streams carrying more bytes after each block, and after a restart from a store "
+            "that also holds a competing block), with id() replaced by a harness-owned one that hands dead objects' ids to new objects adversarially; "
             "the check's reference validator agrees on the recorded blocks.",
             "Only six recorded real blocks exist offline.", "DESIGN.md section 4, C18"),
     'C16': (EX, "exhaustive enumeration of the whole input domain (every height) against a closed-form reference",
@@ -229,7 +239,7 @@ CHECKS = {
             "schedule, checked for monotonicity, summed (= documented maximum) and compared with docs/params.md; the same heights "
             "in descending order, every ordered pair of 106 representative heights and every ordered triple of era starts "
             "(the answer must not depend on earlier calls); the validator's reward bound at the real era boundaries (single- and multi-output rewards, amounts >= 2^63 through the "
-            "wire decoder); 11,117 "
+            "wire decoder; blocks reporting an earlier era's height at era starts); 11,117 "
             "output lists over a boundary alphabet offered to the stand-alone transaction validator (accepted iff every output "
             "and the total are in (0, maximum]). "
             "Nothing is sampled, so the verdict is a statement about all inputs.",
@@ -244,13 +254,13 @@ CHECKS = {
             "close, garbage, OS error, <= 3 open connections, give-up seam 3: no key in both maps, nothing escapes the loop, "
             "every dial (also one that fails on the spot) satisfies the back-off monitor and the give-up bound, self-connections are dropped, recorded and never "
             "redialled; is_time_to_connect equals the formula for every k in 0..2882 with the real constants; peers.json after "
-            "every greeting (incl. a 130-peer run) is newest-first, <= 100, duplicate-free, and every crash snapshot of every "
+            "every greeting (incl. a 130-peer run during which the wall clock steps back twice) is newest-first, <= 100, duplicate-free, and every crash snapshot of every "
             "rewrite is the complete old or new list.",
             "Real sockets / selector replaced by fakes that reproduce register/modify/unregister and recv/send/close errors.",
             "DESIGN.md section 4, C19"),
     'C20': (FE, "exhaustive fault enumeration over mutation families of a full protocol transcript, three fragmentations, victim "
                 "connection present, on one real node with the real store",
-            "A real node (file BlockStore, pending transaction) with an honest greeted connection holding a half-received frame "
+            "A real node (file BlockStore, pending transaction, a validated side-branch block in its history) with an honest greeted connection holding a half-received frame "
             "and an attacker connection before greeting / after greeting (same host) / while the node awaits its inventory. "
             "Mutants of a transcript containing one valid instance of every message type: every byte position x {00,01,7f,80,ff,"
             "b^01,b^80} (quick: 4 values), every truncation + close, truncation at field boundaries + next message, deletion / "
